@@ -398,6 +398,70 @@ func zzC04_two_transfers() {
 	symAssert(bytes.Equal(gotB, bodyB), "transfer B delivers exactly B's bytes (concurrent transfers never mix)")
 }
 
+// two downloads with different tokens served by one responder, the blocks requested in a decided interleaving and
+// each block looked at only after the next one (of the other transfer) has been produced - as happens when block
+// messages wait in the transport: every block carries the bytes of its own representation at its own offset
+func zzC04_two_downloads() {
+	l := zzNewLink(0, 0)
+	tokA, tokB := message.Token{0xA1, 0xA2}, message.Token{0xB1}
+	bodyA, bodyB := symBytes("bodyA", 40), symBytes("bodyB", 40)
+	l.srvApp = func(w *responsewriter.ResponseWriter[*zzBWClient], r *pool.Message) {
+		if bytes.Equal(r.Token(), tokA) {
+			_ = w.SetResponse(codes.Content, message.AppOctets, bytes.NewReader(bodyA))
+		} else {
+			_ = w.SetResponse(codes.Content, message.AppOctets, bytes.NewReader(bodyB))
+		}
+	}
+	get := func(tok message.Token, num int) *pool.Message {
+		m := pool.NewMessage(context.Background())
+		m.SetCode(codes.GET)
+		m.SetToken(tok)
+		_ = m.SetPath("/down")
+		v, _ := EncodeBlockOption(SZX16, int64(num), false)
+		m.SetOptionUint32(message.Block2, v)
+		return m
+	}
+	type held struct {
+		a   bool
+		num int
+		m   *pool.Message
+	}
+	var prev *held
+	check := func(h *held) {
+		if h == nil {
+			return
+		}
+		body := bodyB
+		if h.a {
+			body = bodyA
+		}
+		lo, hi := h.num*16, h.num*16+16
+		if hi > len(body) {
+			hi = len(body)
+		}
+		symAssert(h.m != nil && bytes.Equal(zzBody(h.m), body[lo:hi]), "a block carries the bytes of its own transfer at its own offset, also when other blocks were produced after it")
+	}
+	ia, ib := 0, 0
+	for ia < 3 || ib < 3 {
+		pickA := ia < 3
+		if ia < 3 && ib < 3 {
+			pickA = symChoose("next", 2) == 0
+		}
+		var h *held
+		if pickA {
+			h = &held{true, ia, l.toServer(get(tokA, ia))}
+			ia++
+		} else {
+			h = &held{false, ib, l.toServer(get(tokB, ib))}
+			ib++
+		}
+		check(prev) // the previous block is read only now
+		prev = h
+	}
+	check(prev)
+	symCover("both-served")
+}
+
 // a final block that arrives after the reassembly state has expired must not be presented as the complete body
 func zzC04_stale() {
 	l := zzNewLink(0, 0)
